@@ -1291,6 +1291,13 @@ func retChunkNonNil(in ssa.Instruction) bool {
 
 func runC03(c *Ctx) {
 	p := c.P
+	if c.Prop == "C03" && c.RulePrefix == "" {
+		// "forwarded to exactly the internal address and port that created the mapping" presupposes that an external
+		// address has one live owner and that keys agree: the mapping rules are part of this property's statement
+		c.RulePrefix = "M."
+		runC02(c)
+		c.RulePrefix = ""
+	}
 	r := natAnchors(c)
 	if r == nil {
 		return
